@@ -149,6 +149,9 @@ def run_case(ctx, index):
     vcl = None
     if op in ('norm', 'cli') or (op == 'transform' and domain == 'positive'):
         vcl = ['count', 'bigcount', 'dyadic', 'frac', 'tiny', 'manydigits']
+        if op in ('norm', 'cli'):
+            # totals far below the smallest normal number are totals too
+            vcl.append('subnormal')
     elif op in ('transform', 'axis-agreement') and domain == 'moderate':
         vcl = ['count', 'dyadic', 'frac', 'neg', 'tiny', 'manydigits',
                'bigcount']
